@@ -4,6 +4,7 @@ package shmipc
 // into the repository's package by run.sh (-overlay) as zz_verif_<name>_test.go.
 
 import (
+	"encoding/json"
 	"fmt"
 	"os"
 	"runtime"
@@ -40,6 +41,20 @@ func TestMain(m *testing.M) {
 		os.Exit(3)
 	}
 	c := newCheckCtx(prop)
+	if c.tier == "replay" {
+		// replay: case lists are functions of (tier, seed) only, so re-running the recorded tier with the recorded seed
+		// regenerates the failing case (schedules are not reproducible bit for bit; the replay file carries the witness)
+		var doc struct {
+			Seed int64  `json:"seed"`
+			Tier string `json:"tier"`
+			Case string `json:"case"`
+		}
+		if data, err := os.ReadFile(os.Getenv("VERIF_REPLAY")); err == nil && json.Unmarshal(data, &doc) == nil {
+			c.seed = doc.Seed
+			c.replayOf = doc.Tier
+			fmt.Printf("REPLAY property=%s seed=%d recorded tier=%s case=%s\n", prop, doc.Seed, doc.Tier, doc.Case)
+		}
+	}
 	code := c.run(fn)
 	os.Exit(code)
 }
